@@ -810,6 +810,11 @@ def round16_entries():
     # a boolean literal at a NAMED i1 type keeps the type it was written at (one-step fixpoint)
     out.append(("named-i1.bool-literal", '%B = type i1\n\n@g = global { %B } { %B 1 }\n@h = global { %B, i1 } { %B false, i1 true }\n\ndefine %B @f(%B %x) {\n\t%y = xor %B %x, true\n\tret %B false\n}\n',
                 ["@g = global { %B } { %B true }", "@h = global { %B, i1 } { %B false, i1 true }", "\t%y = xor %B %x, true\n\tret %B false\n"]))
+    # `expr: null` of a DIGlobalVariableExpression (LLVM reads it as the empty expression; the field is REQUIRED, so it must be printed)
+    out.append(("digve.expr-null", '@g = global i32 0, !dbg !0\n\n!llvm.module.flags = !{!5}\n!llvm.dbg.cu = !{!3}\n\n!0 = !DIGlobalVariableExpression(var: !1, expr: null)\n'
+                '!1 = distinct !DIGlobalVariable(name: "g", scope: !3, file: !4, line: 1, type: !2, isLocal: false, isDefinition: true)\n!2 = !DIBasicType(name: "int", size: 32, encoding: DW_ATE_signed)\n'
+                '!3 = distinct !DICompileUnit(language: DW_LANG_C99, file: !4, producer: "x", isOptimized: false, runtimeVersion: 0, emissionKind: FullDebug, globals: !6)\n!4 = !DIFile(filename: "a.c", directory: "/")\n'
+                '!5 = !{i32 2, !"Debug Info Version", i32 3}\n!6 = !{!0}\n', ["!0 = !DIGlobalVariableExpression(var: !1, expr: !DIExpression())"]))
     # attribute strings whose ONLY byte that needs an escape is a backslash, directly followed by two hexadecimal digits or by another backslash (a printer that
     # copies "harmless" strings unescaped turns `\5CDe` into the escape `\De`): every site that prints a string attribute, key and value
     for i, (src, canon) in enumerate((("C:\\5CDev", "C:\\5CDev"), ("a\\5C\\5C41", "a\\5C\\5C41"), ("\\\\00", "\\5C00"), ("x\\5Cff", "x\\5Cff"))):
